@@ -71,8 +71,13 @@ DashFreeKeywords(alts) == SelectSeq(alts, LAMBDA a : a # "" /\ AllAlpha(a, 1))
 \* alternatives that are function calls name(...) with an all-letter name: typing the name selects the whole call
 RECURSIVE ParenAt(_, _)
 ParenAt(x, i) == IF i > Len(x) THEN 0 ELSE IF At(x, i) = "(" THEN i ELSE ParenAt(x, i + 1)
-IsFnAlt(a) == LET p == ParenAt(a, 1) IN p > 1 /\ At(a, Len(a)) = ")" /\ AllAlpha(SubSeq(a, 1, p - 1), 1)
-FnKeywords(alts) == LET f == SelectSeq(alts, IsFnAlt) IN [i \in 1..Len(f) |-> [name |-> SubSeq(f[i], 1, ParenAt(f[i], 1) - 1), out |-> Plain(f[i], 1)]]
+RECURSIVE AllAlnum(_, _), HasDigit(_, _)
+AllAlnum(x, i) == i > Len(x) \/ ((IsAlpha(At(x, i)) \/ IsDigit(At(x, i))) /\ AllAlnum(x, i + 1))
+HasDigit(x, i) == i <= Len(x) /\ (IsDigit(At(x, i)) \/ HasDigit(x, i + 1))
+\* a function name is letters and digits after a first letter (scale3d); digit: the name holds a digit (known finding F44)
+IsFnAlt(a) == LET p == ParenAt(a, 1) IN p > 1 /\ At(a, Len(a)) = ")" /\ IsAlpha(At(a, 1)) /\ AllAlnum(SubSeq(a, 1, p - 1), 1)
+FnKeywords(alts) == LET f == SelectSeq(alts, IsFnAlt) IN [i \in 1..Len(f) |-> [name |-> SubSeq(f[i], 1, ParenAt(f[i], 1) - 1), out |-> Plain(f[i], 1),
+                                                                             digit |-> HasDigit(SubSeq(f[i], 1, ParenAt(f[i], 1) - 1), 1)]]
 RECURSIVE FieldInQuotes(_, _, _)
 FieldInQuotes(x, i, q) == i <= Len(x) /\ (IF q # "" THEN (IF At(x, i) = q THEN FieldInQuotes(x, i + 1, "")
                                                            ELSE (At(x, i) = "$" /\ At(x, i + 1) = "{") \/ FieldInQuotes(x, i + 1, q))
